@@ -5,6 +5,12 @@ V = os.path.dirname(os.path.dirname(os.path.abspath(__file__)))
 TB = ('trusted: clang-14 lowering of the sources to IR at -O1; the IR executor (validated bit-for-bit against the native run of the same entry points on every run); '
       'z3 5.1; the environment models listed in the evidence (stubs); sizes above the stated bounds are outside the claim')
 CHECKS = {
+ 'C01': dict(technique='symbolic execution of the real kick/drift/RF/Fokker-Planck/identity kernels (LLVM IR) with symbolic displacement, data and damping decrement; z3 NRA decides per-row charge conservation',
+             text='bounded symbolic verification: for every displacement (integer part case-split, fraction real) and all interior-supported data of a row, the sum over cells is unchanged to 2e-6*sum|in|; Fokker-Planck operator built by the real constructor from IR for every e1 in (0,1/4], all 4 types x both stencils; RF/drift with the constructor-computed field; identity cell by cell',
+             ref='4/C01'),
+ 'C02': dict(technique='symbolic execution of calcCoefficiants/updateSM/apply (LLVM IR): z3 reals for weight identities and polynomial reproduction, z3 IEEE-754 theory for bit-exact whole-cell shifts, (1+e) rounding enclosure for float weights',
+             text='bounded symbolic verification: weight moment identities for every real f in [0,1) and orders 1-4; every float f for orders 1-2 (IEEE theory) and per-weight rounding enclosures for orders 3-4; whole-cell shifts bit-identical for all finite float data and every k the map represents (|k| beyond: shifted-or-zero); polynomial rows of degree < order reproduced at y+off for all coefficients',
+             ref='4/C02'),
  'C08': dict(technique='differential symbolic execution of the real LLVM IR (multi-bunch vs single-bunch objects) on native snapshots, z3 NRA unsat per bunch',
              text='bounded symbolic verification: for every data value of every bunch and every fractional displacement (integer parts fixed per row) the B-bunch kernels equal the single-bunch kernels cell by cell, for generic x/y kicks, both RF models, drift, Fokker-Planck (3/4-point) and identity, grids 6-9, 2-3 bunches, 1-4 interpolation points',
              ref='4/C08'),
